@@ -640,7 +640,7 @@ func runCanon(c *Ctx) {
 	add(`cr-window pipe docsize=100 ndocs=200 term=CR err={"b": tru } reads=full`, jsonCase{cr, "pipe", "full", false})
 	// known finding: --stream positions use offsets of dec.Token(), which are not absolute
 	add(`stream-offset seek input={"b": tru }`, jsonCase{[]byte(`{"b": tru }` + "\n"), "seek", "", true})
-	// known finding candidate: go-yaml's Index counts characters, gojq uses it as a byte offset
+	// regression (repaired by 652e0ad): go-yaml's Index counts characters
 	{
 		data := []byte("\u4e16\u754c: 1\n  x: 2\n")
 		idx, _ := refYAMLIndex(data)
@@ -648,7 +648,7 @@ func runCanon(c *Ctx) {
 		cli.VerifRunC17([]string{"--yaml-input", "-c", "0"}, bytes.NewReader(data), &out, &er)
 		rep := parseReport(er.String(), "invalid yaml: ", "<stdin>", "<stdin>")
 		c.Emit("(yaml (seek) %s %s %d %s %s %s)", Hexs([]byte("<stdin>")), Hexs(data), idx, Hexs(er.Bytes()), rep, swtab(excerptOf(rep)))
-		names = append(names, `yaml-char-index seek input="\u4e16\u754c: 1\n  x: 2\n"`)
+		names = append(names, `regression yaml-char-index seek input="\u4e16\u754c: 1\n  x: 2\n"`)
 	}
 	// regression (D7, repaired by e216f69): read-ahead containing the offending byte must be kept
 	add(`regression pipe-reset docsize=100 ndocs=164 err={"b": tru } reads=full`, jsonCase{d7, "pipe", "full", false})
